@@ -4,14 +4,14 @@ from ..core import Violation
 from .. import protocol, sendfeed, pipeline, pairfeed
 
 ID = 'C04'
-PROP_FILES = ['C04', 'C04Potential', 'C04Pair']
-MODULES = ['OFModel.Zmq.Sender', 'OFModel.Zmq.Receiver', 'OFModel.Zmq.Pair', 'OFModel.Gen.Facts']
+PROP_FILES = ['C04', 'C04Potential', 'C04Pair', 'C04Loop']
+MODULES = ['OFModel.Zmq.Sender', 'OFModel.Zmq.Receiver', 'OFModel.Zmq.Pair', 'OFModel.FilterLoop', 'OFModel.Gen.Facts']
 RULE = ('adversarial request feeds of a real non-balanced ZMQSender with 1-4 clients (sync and ephemeral), duplicated / stale / ahead requests, clock steps up to and '
         'beyond the connection time-out; for every synchronised client the feed is cut after its last request (= the stall point) and the publishes made while '
         'it is still tracked are counted against the potential [requested] + queued requests measured on the real object.  Closed loop (OFProps/C04Pair.lean): a REAL ZMQSender and a REAL '
         'ZMQReceiver wired through fakezmq run a random reachable prefix (restarts anywhere), then the consumer stalls for N in {5, 50, 500} send calls (clock steps up to and beyond the '
         'connection time-out); oracle pair-overrun-after-stall: more than one frame set published (none if one is already waiting), or more than one queued at the real SUB socket; '
-        'the same schedule through OF.Pair, compared event by event.  non-trivial = at least one publish')
+        'the same schedule through OF.Pair, compared event by event.  Consumer behind a relay (OFProps/C04Loop.lean): the real Filter.run / Filter.init / loop_once of a relay whose mq.send is blocked b times (and whose mq.recv is empty b times), for every combination of sources_timeout / outputs_timeout in {absent, 0, 50, 100, 150, 250, 1000} ms: attempts made and whether the loop gave the frame up, compared with OF.Loop.waitLoop; oracle relay-gives-up-blocked-send: without outputs_timeout a relay never goes back to recv while its send is blocked.  non-trivial = at least one publish / a blocked attempt')
 ASSUMPTIONS = ['sender-level statement for any number of clients: requests in flight in the network and the receiver\'s request rate (one per poll interval + one prefetch) are explored by the '
                'pipeline simulation (MQNet), not proved; closed loop proved for the pair of one publisher and one synchronised consumer (C04_pair_stall_bounded: at most ONE more frame set, for every '
                'reachable state and every stall length; C04_pair_one_block_in_flight; C04_pair_resumes), immediate loss-free delivery, libzmq timing not modelled', 'libzmq replaced by the in-process fake']
@@ -55,7 +55,35 @@ def pair_stall_campaign(ctx, per_n):
     res.extra['pair_stall'] = hist
 
 
+def loop_budget_campaign(ctx, nrand):
+    """back-pressure through a relay: wait budgets of the real Filter.loop_once vs OF.Loop.waitLoop"""
+    import logging
+    from .. import loopbudget as LB
+    from ..core import Violation
+    logging.disable(logging.CRITICAL)
+    res, rng = ctx.result, ctx.rng
+    if ctx.replay:
+        cases = [ctx.replay['case']['loop']] if ctx.replay.get('case', {}).get('loop') else []
+    else:
+        cases = [c['loop'] for c in ctx.corpus if 'loop' in c] + LB.grid() + [LB.gen_case(rng) for _ in range(nrand)]
+    obs = [LB.run_impl(c) for c in cases]
+    model = ctx.driver.batch([LB.model_request(c, o['poll']) for c, o in zip(cases, obs)]) if ctx.driver and cases else None
+    gave = 0
+    for i, (c, o) in enumerate(zip(cases, obs)):
+        res.note({'loop': c}, nontrivial=bool(c['blocked']))
+        gave += bool(o['gave_up'])
+        for key, what in LB.oracle(c, o): res.violations.append(Violation(key, what, {'loop': c}))
+        if model is not None:
+            m = model[i]
+            if 'err' in m or (m.get('attempts'), m.get('gave_up')) != (o['attempts'], o['gave_up']) or o['err']:
+                res.disagreements.append({'point': 'loop.wait (Filter.loop_once wait budgets)', 'case': {'loop': c}, 'impl': o, 'model': m})
+            else: res.traces_validated += 1
+    res.extra['loop_budget'] = {'cases': len(cases), 'gave_up': gave}
+
+
 def run(ctx):
+    loop_budget_campaign(ctx, 400 if ctx.thorough else 60)
+    if ctx.replay and ctx.replay.get('case', {}).get('loop'): return
     pair_stall_campaign(ctx, 60 if ctx.thorough else 12)
     n = 10000 if ctx.thorough else (4000 if ctx.escalate else 1000)
     protocol.send_campaign(ctx, 'C04', n, ['sync', 'sync', 'adv'], extra_oracle=sendfeed.stall_oracle)
